@@ -1931,7 +1931,9 @@ class FlowIR(object):
             for platform in environments:
                 platform_environments = environments[platform] or {}
 
-                for name in list(platform_environments.keys()):
+                # VV: Visit the names in sorted order so that the outcome does not depend on the order of the
+                # keys in the document when 2 names differ only in their case (e.g. MyEnv and MYENV)
+                for name in sorted(platform_environments.keys()):
                     if name != name.lower():
                         platform_environments[name.lower()] = platform_environments[name]
                         del platform_environments[name]
